@@ -46,8 +46,10 @@ claim('C07', "Tree-shape postconditions of every composite diagnostic pass: chil
 claim('C09', "modifies-nothing frame condition on every function under contract: a mutating operation is admitted only on a value created inside the function "
       "(provenance check during symbolic execution); any mutation of a caller-owned object is a failing 'frame' obligation; the run-time contract check "
       "snapshots and compares the arguments of every call.")
-claim('C10', "KeyCache.__call__ (unbounded mode) proved transparent under 'equal keys mean interchangeable arguments', with a ghost history invariant and a "
-      "retention obligation (arguments behind id()-based keys stay referenced); lemma: make_converter's key identifies its arguments among live objects.",
+claim('C10', "KeyCache.__call__ (unbounded mode) proved transparent (results and exceptions) under 'equal keys mean interchangeable arguments', with a ghost history invariant and a "
+      "retention obligation (arguments behind id()-based keys stay referenced); lemma: make_converter's key identifies its arguments among live objects; make_converter proved "
+      "to be memoised in exactly that mode (decorator obligation); mapping-form handlers proved to be wrapped in a new plain function per call; every converter method proved "
+      "not to store state on the (shared, memoised) converter or in module-level state (frame obligations).",
       note="Not decided by this technique: thread interleavings; LRU mode (unused by make_converter) is not under contract; id() uniqueness among live objects is CPython's guarantee (assumed).")
 claim('C11', "UnionConverter.try_convert/collect_errors/into_data/construct/__init__ proved with inductive invariants: accepts iff some member accepts, result is the image under "
       "the left-most accepting member, diagnostic node has one child per member in declaration order, serialisation by the first accepting member; make_converter's union branch "
@@ -59,15 +61,17 @@ claim('C13', "ConditionalConverter proved (predicate on the CONVERTED value, rai
       "(table obligations on the real lambdas), val_range / len_range (inclusive, absent bound unrestricted), all/any/not/&/| and the bundling of several conditions in "
       "_annotated_converter proved via definitional summaries of the closures.",
       note="comparisons on opaque values are total in the model; floats are not interpreted (NaN / inf behaviour of Finite rests on math.isfinite).")
-claim('C14', "Generated __init__ proved (converted or verbatim arguments, defaults, fresh factory products, set-field record exactly the supplied fields, hook called once); "
-      "from_dict_unchecked proved; the mapping and sequence data paths proved to build the instance from converted values, defaults and the exact record.",
+claim('C14', "Generated __init__ proved (converted or verbatim arguments, defaults, fresh factory products, set-field record exactly the supplied fields, hook called once and "
+      "only on a complete instance); from_dict_unchecked / make_unchecked proved; the mapping and sequence data paths proved to build the instance from converted values, defaults "
+      "and the exact record. BOUNDED: construct.bounded and data_paths.bounded compare constructor and data paths on pool classes (type-exact values, record, fresh defaults).",
       note="Signature.bind is assumed (stdlib); default factories assumed not to raise; sharing/freshness of factory products is not expressible (values are abstract).")
 claim('C15', "PaneConverter: __init__ (input-name map), layout gate, struct decision table, tuple positional binding with length bounds, output layout/names/exclusion proved over "
       "a symbolic field list; FieldSpec.make_field (derivation of input names and output name) proved.",
       note="positional bounds computed by _process are checked by the bounded class-hierarchy contract, not symbolically.")
 claim('C16', "Generated __eq__ / _pane_ord / __hash__ proved (class modulo generic parameters + compare-fields; lexicographic order consistent with equality; hash of exactly "
       "the hash-fields tuple); the hash rule table proved equal to the standard-library table (16 rows, exhaustive); from_dict_unchecked keeps the set-field record.",
-      note="_maybe_make_hash proved to apply the table entry; documented class options proved accepted (signature obligation). Not under contract: __copy__/__deepcopy__/__replace__/__repr__/__setattr__.")
+      note="_maybe_make_hash proved to apply the table entry; documented class options proved accepted (signature obligation); the ordering wrappers proved to be the sign of "
+           "_pane_ord; field() proved to default hash to compare; __setattr__/__delattr__/__copy__/__deepcopy__/__replace__/__repr__/dict proved against their specifications.")
 claim('C17', "Option inheritance proved (PaneOptions.replace, __init_subclass__: a passed option overrides, an absent one is inherited, incl. class handlers); field merge over the MRO, "
       "override in place, keyword-only reordering, signature order, type-variable substitution and enforcement are decided by BOUNDED run-time contracts over a pool of class hierarchies.",
       note="bounded part never counted as proved; typing.Generic bookkeeping is outside the engine (one open finding: a field typed with a subscripted generic dataclass is not substituted).")
@@ -80,7 +84,8 @@ claim('C08', "Totality proved: the six print_error bodies and ErrorNode.__str__ 
       note="termination of the chain-fusing loop is not proved (finite trees assumed); cross-process set ordering is not covered; the bounded part is never counted as proved.")
 claim('C19', "Composition and ownership proved: readers = load then from_data(ty, custom), writers = into_data(obj, ty, custom) then dump with every formatting option passed "
       "by name, from_yaml_all converts the whole document list as List[ty]; open_file opens paths itself and hands caller streams back in a null context (same object); "
-      "dataclass convenience methods delegate with ty = the class. The composed round trip over sinks x options x values is a BOUNDED run-time contract.",
+      "dataclass convenience methods (from_json/yaml/yaml_all, from_jsons/yamls, write_json/write_yaml) delegate with ty = the class, the same format and every option. "
+      "The composed round trip over sinks x options x values, and multi-document YAML from streams and paths, are BOUNDED run-time contracts.",
       note="json / PyYAML load(dump(x)) == x is the assumed dependency contract (exercised, not proved); bounded part never counted as proved.")
 claim('C20', "BOUNDED: canonical spelling, idempotence, reversibility and refusal clauses of rename_field evaluated at run time on every name of 1-3 words over a 4-word "
       "vocabulary x 5 styles, and on names with leading/trailing/doubled separators.",
